@@ -152,6 +152,8 @@ def run(ctx, rep):
             rep.finding(R3, f'C11.R3/{s.lg.name}/{r}/{s.rc.name}/{d}/{v}', m.floc(s.sch.fn), f'{s.lg.name}:{s.rc.short}',
                         f'{s.lg.name} is the {r} logic of a declared pair and its rule {s.rc.name} is {d} at {v}',
                         logic=s.lg.name, rule=s.rc.name, direction=d, valuation=v)
+    RL = rep.rule('C11.R4', 'a rule stops offering targets because of a world / constant limit only in states where a quit flag is put on the branch (limit predicates and guarded target producers folded below / at / above the limit): an open branch cut short by a limit is never limit-free')
+    common.limit_guards(ctx, rep, RL, 'C11.R4')
 
 
 def formulas(ops, arity, depth, letters=('p', 'q')):
